@@ -8,7 +8,7 @@ func init() {
 	oracle := "reference model harness/aztec/oracle_aztec.go written from ISO/IEC 24778 (sizes, word sizes, bullseye, orientation marks, mode message with RS over GF(16), reference grid, spiral data placement, RS over GF(64..4096), stuffing, full character-set decoder), validated natively against 21993 library symbols of all 36 types"
 	rsStub := "(*ReedSolomonEncoder).Encode replaced by the reference remainder (value-preserving; guarantee side: RS-enc-az* obligations of C17)"
 	rs := func(in *exec.Instance, tier string) { in.Redirect = map[string]string{rsEncode: "utils:VPRSEncodeSummary"} }
-	reg(&Oblig{ID: "AZ-A", Pkg: "aztec", Func: "VP_AZ_hl", Props: []string{"C03", "C10"},
+	reg(&Oblig{ID: "AZ-A", Pkg: "aztec", Func: "VP_AZ_hl", Props: []string{"C03"},
 		Desc:  "high-level encoder: after concrete prefixes leaving the search in every mode mix, n symbolic bytes; the reference decoder (all five modes, latches, shifts, punctuation pairs, binary shift in short and long form) returns the payload byte for byte; payload untouched",
 		Real:  []string{"aztec.highlevelEncode", "aztec.updateStateListForChar/Pair", "aztec.updateStateForChar/Pair", "aztec.simplifyStates", "(*state).latchAndAppend/shiftAndAppend/addBinaryShiftChar/endBinaryShift/isBetterThanOrEqualTo/toBitList", "(*simpleToken).appendTo", "(*binaryShiftToken).appendTo"},
 		Stubs: []string{oracle}, Bound: "1 fully symbolic byte (all 256 values) after each of 8 prefixes (every (mode, character) pair of charMap / latchTable / shiftTable); binary runs of 1, 31, 32, 62, 63, 64, 100 symbolic bytes >= 0x80 (header forms); thorough adds 2 symbolic bytes from the initial state",
@@ -119,7 +119,7 @@ func init() {
 		Tune: func(in *exec.Instance, tier string) {
 			in.Redirect = map[string]string{rsEncode: "utils:VPRSEncodeSummary", azCheckWords + "|EncodeWithColor": "aztec:vpCheckWordsStub"}
 		}})
-	reg(&Oblig{ID: "AZ-F", Pkg: "aztec", Func: "VP_AZ_e2e", Props: []string{"C03", "C10", "C15", "C13"}, Desc: "Encode end to end on a short symbolic payload: every module equals the reference pipeline (stuffing, at least one data word, RS, mode message, layout); explicit requests honoured; Content; payload untouched; snapshot: overwriting the caller's buffer afterwards changes nothing",
+	reg(&Oblig{ID: "AZ-F", Pkg: "aztec", Func: "VP_AZ_e2e", Props: []string{"C03", "C15"}, Desc: "Encode end to end on a short symbolic payload: every module equals the reference pipeline (stuffing, at least one data word, RS, mode message, layout); explicit requests honoured; Content; payload untouched; snapshot: overwriting the caller's buffer afterwards changes nothing",
 		Real:  []string{"aztec.Encode", "aztec.EncodeWithColor", "(*aztecCode).Content", "all of AZ-A..E"},
 		Stubs: []string{oracle, rsStub, "high-level bit stream inside this obligation is the library's own (guarantee side: AZ-A)"},
 		Bound: "n <= 1 arbitrary symbolic byte, n in {2,3} symbolic bytes >= 0x80, empty payload; default parameters and explicit layer requests / percentages",
@@ -131,4 +131,21 @@ func init() {
 			}
 			return out
 		}, Tune: rs})
+	reg(&Oblig{ID: "AZ-min", Pkg: "aztec", Func: "VP_AZ_minimal", Props: []string{"C13"}, Desc: "relational minimality: for the automatically chosen size, every smaller compact / full-range size is refused when requested explicitly with the same payload and (symbolic) percentage; if nothing fits automatically nothing fits explicitly",
+		Real:  []string{"aztec.Encode (automatic loop and explicit-request path)"},
+		Stubs: []string{oracle, "generateCheckWords stubbed at its call site in EncodeWithColor", "payload: binary bytes whose bit stream never needs stuffing"},
+		Bound: "payload lengths {1, 10, 40, 120} x percentage symbolic over 0..200",
+		Configs: func(tier string, seed int64) []map[string]int {
+			var out []map[string]int
+			for _, n := range []int{1, 10, 40, 120} {
+				out = append(out, map[string]int{"n": n, "minpct": 0, "maxpct": 200})
+			}
+			if tier == "thorough" {
+				out = append(out, map[string]int{"n": 400, "minpct": 0, "maxpct": 300}, map[string]int{"n": 1200, "minpct": 0, "maxpct": 100})
+			}
+			return out
+		},
+		Tune: func(in *exec.Instance, tier string) {
+			in.Redirect = map[string]string{rsEncode: "utils:VPRSEncodeSummary", azCheckWords + "|EncodeWithColor": "aztec:vpCheckWordsStub"}
+		}})
 }
